@@ -243,6 +243,114 @@ pub fn run_rounds(kind: Kind, mask: u32, rounds: &[Vec<usize>], mode: Mode) -> V
     out
 }
 
+/// Two devices alive at once (each with its own external terminals), their round sequences
+/// executed in lockstep (A's round k, then B's round k); returns both observation sequences, which
+/// must equal what each device yields alone (`run_rounds`): state shared between device instances
+/// - a static cache, a module-level scratch value - breaks this.
+pub fn run_rounds_twin(ka: Kind, ma: u32, ra: &[Vec<usize>], kb: Kind, mb: u32, rb: &[Vec<usize>], mode: Mode) -> (Vec<RoundObs>, Vec<RoundObs>) {
+    macro_rules! setup {
+        ($kind:expr, $mask:expr, $xs:ident, $dev:ident) => {
+            let $xs: Vec<Term> = (0..$kind.n()).map(|_| Terminal::new()).collect();
+            let mut $dev = make_dev($kind);
+            for i in 0..$kind.n() {
+                if $mask >> i & 1 == 1 {
+                    connect($dev.term(i), &$xs[i]);
+                }
+            }
+        };
+    }
+    macro_rules! step {
+        ($kind:expr, $mask:expr, $xs:ident, $dev:ident, $k:expr, $opts:expr) => {{
+            let n = $kind.n();
+            for i in 0..n {
+                let o = $opts[i];
+                if o == 0 {
+                    continue;
+                }
+                let target: &Term = if $mask >> i & 1 == 1 && o < 5 { &$xs[i] } else { $dev.term(i) };
+                let t = Time(opt_time($k, i, o));
+                match mode {
+                    Mode::State => target.borrow_mut().set(Datum::new(t, if opt_is_a(o) { SA } else { SB })).unwrap(),
+                    Mode::Command => target.borrow_mut().set(Datum::new(t, if opt_is_a(o) { CA } else { CB })).unwrap(),
+                }
+            }
+            let rd = |t: &Term| if mode == Mode::State { read_s(t) } else { read_c(t) };
+            let ow = |t: &Term| if mode == Mode::State { own_s(t) } else { own_c(t) };
+            let mut ro = RoundObs::default();
+            for i in 0..n {
+                ro.reads_before.push(rd($dev.term(i)));
+                ro.own_before.push(ow($dev.term(i)));
+                ro.ext_own_before.push(ow(&$xs[i]));
+            }
+            ro.upd = obs_unit(&$dev.upd());
+            for i in 0..n {
+                ro.own_after.push(ow($dev.term(i)));
+                ro.reads_after.push(rd($dev.term(i)));
+                ro.ext_own_after.push(ow(&$xs[i]));
+                ro.ext_reads_after.push(rd(&$xs[i]));
+            }
+            ro
+        }};
+    }
+    setup!(ka, ma, xa, da);
+    setup!(kb, mb, xb, db);
+    let (mut oa, mut ob) = (Vec::new(), Vec::new());
+    for k in 0..ra.len().max(rb.len()) {
+        if k < ra.len() {
+            oa.push(step!(ka, ma, xa, da, k, ra[k]));
+        }
+        if k < rb.len() {
+            ob.push(step!(kb, mb, xb, db, k, rb[k]));
+        }
+    }
+    (oa, ob)
+}
+
+/// every round sequence of `depth` rounds of device A against each of a few partner sequences of
+/// device B (and with the roles swapped), run in lockstep vs. alone
+fn explore_twins(e: &mut Eng, ka: Kind, kb: Kind, depth: usize, mode: Mode, budget: Budget) {
+    for swap in [false, true] {
+        let (kf, kp) = if swap { (kb, ka) } else { (ka, kb) }; // kf: fully enumerated, kp: partner
+        let (nf, np) = (kf.n(), kp.n());
+        let pf = ipow(NOPT as u64, nf);
+        let tf = ipow(pf, depth);
+        // partner rounds: the same option on every terminal, per round
+        let partner_seqs: Vec<Vec<Vec<usize>>> = [[1usize, 2], [2, 1], [3, 3], [1, 0], [4, 2], [2, 2]].iter().map(|p| (0..depth).map(|k| vec![p[k % 2]; np]).collect()).collect();
+        let partner_seqs = &partner_seqs;
+        let (maskf, maskp) = ((1u32 << nf) - 1, 0u32);
+        par(e, tf * partner_seqs.len() as u64, 64, budget, |idx, e| {
+            let (ia, ip) = (idx / partner_seqs.len() as u64, (idx % partner_seqs.len() as u64) as usize);
+            let mut codes = vec![0usize; depth];
+            decode(ia, pf, &mut codes);
+            let rf: Vec<Vec<usize>> = codes.iter().map(|&x| { let mut o = vec![0usize; nf]; decode(x as u64, NOPT as u64, &mut o); o }).collect();
+            let rp = &partner_seqs[ip];
+            e.executions += 1;
+            e.states += 1;
+            e.transitions += 2 * depth as u64;
+            e.checks += 2;
+            e.nontrivial += 1;
+            // lockstep order: the partner goes first when swapped
+            let r = guard(|| {
+                let solo_f = run_rounds(kf, maskf, &rf, mode);
+                let solo_p = run_rounds(kp, maskp, rp, mode);
+                let (tf_, tp_) = if swap {
+                    let (p, f) = run_rounds_twin(kp, maskp, rp, kf, maskf, &rf, mode);
+                    (f, p)
+                } else {
+                    run_rounds_twin(kf, maskf, &rf, kp, maskp, rp, mode)
+                };
+                (solo_f == tf_, solo_p == tp_)
+            });
+            let show = |rounds: &[Vec<usize>], n: usize| rounds.iter().enumerate().map(|(k, r)| format!("({})", (0..n).map(|i| opt_show(mode, k, i, r[i])).collect::<Vec<_>>().join(" "))).collect::<Vec<_>>().join("; ");
+            match r {
+                Ok((true, true)) => e.outcome(h64(&(ia, ip, swap))),
+                Ok(_) => e.violation(&format!("device:{}:instances-interfere", kf.name()), depth, || format!("{:?} (all terminals connected) with rounds [{}] and {:?} (unconnected) with rounds [{}] run in lockstep ({} first) do not behave as each does alone ({:?} mode)", kf, show(&rf, nf), kp, show(rp, np), if swap { "the second" } else { "the first" }, mode)),
+                Err(m) => e.violation(&format!("device:{}:twins-panic", kf.name()), depth, || format!("{:?} / {:?} in lockstep panicked: {}", kf, kp, m)),
+            }
+        });
+    }
+}
+
 #[derive(Clone, Copy)]
 enum Want {
     Unchanged,
@@ -930,6 +1038,13 @@ fn state_engines(ctx: &Ctx, time_only: bool, tag: &str) -> Vec<Eng> {
             }
         }
         e1.notes.push("gear ratio sweep: one round of every kind x 4 connection subsets for every ratio +-2^(i/16) (thorough 2^(i/32)) in [0.01, 100] plus 1 +- 2^-k".into());
+        // two devices alive at once, all pairs of 2-round sequences, in lockstep vs. alone
+        for (ka, kb) in [(Kind::Invert, Kind::Invert), (Kind::Gear(-2.0), Kind::Gear(-2.0)), (Kind::Gear(0.5), Kind::Gear(100.0)), (Kind::Axle(2), Kind::Axle(2)), (Kind::Invert, Kind::Gear(-2.0))] {
+            explore_twins(&mut e1, ka, kb, 2, Mode::State, budget);
+        }
+        explore_twins(&mut e1, Kind::Diff(3), Kind::Diff(3), 1, Mode::State, budget);
+        explore_twins(&mut e1, Kind::Axle(3), Kind::Axle(3), 1, Mode::State, budget);
+        e1.notes.push("twins: two devices alive at once (same kind, same kind with another ratio, two kinds), every 2-round sequence (3-terminal devices: 1 round) of one against 6 partner sequences of the other, in both orders, run in lockstep must behave as each does alone".into());
     }
     // states in the presence of a much newer command on one side
     for env in 1..=2u8 {
@@ -1018,6 +1133,11 @@ fn command_engines(ctx: &Ctx, time_only: bool, tag: &str) -> Vec<Eng> {
             }
         }
         e1.notes.push("gear ratio sweep: one round of every kind x 4 connection subsets for every ratio +-2^(i/16) (thorough 2^(i/32)) in [0.01, 100] plus 1 +- 2^-k".into());
+        for (ka, kb) in [(Kind::Invert, Kind::Invert), (Kind::Gear(-2.0), Kind::Gear(-2.0)), (Kind::Gear(0.5), Kind::Gear(100.0)), (Kind::Axle(2), Kind::Axle(2)), (Kind::Invert, Kind::Gear(-2.0))] {
+            explore_twins(&mut e1, ka, kb, 2, Mode::Command, budget);
+        }
+        explore_twins(&mut e1, Kind::Axle(3), Kind::Axle(3), 1, Mode::Command, budget);
+        e1.notes.push("twins: two devices alive at once, every 2-round command sequence of one against 6 partner sequences of the other, in both orders, run in lockstep must behave as each does alone".into());
     }
     TIME_BASE.store(1_500_000_000, std::sync::atomic::Ordering::SeqCst);
     for &k in &kinds {
